@@ -293,6 +293,17 @@ def mutators(ctx):
         'self._changes = {}' in t
     ctx.ob(R, 'EnvVarDict.reset|restores-initial', ok, fn,
            'reset() does not restore exactly the initial variables')
+    # ... on every path (a from_json'd dict has no _changes attribute yet)
+    from ..cfg import EXIT, build as build_cfg
+    g = build_cfg(fn)
+    for want in ('super().clear()', 'super().update(self.initial)'):
+        st = [g.stmt_of(c) for c in Q.calls(fn, nested=False)
+              if unparse(c) == want]
+        ctx.ob(R, 'EnvVarDict.reset|always|' + want,
+               bool(st) and g.must_pass(st, EXIT), fn,
+               'reset() can return without {}: variables loaded from the '
+               'saved configuration keep the toolchain\'s modifications and '
+               'the toolchain file is replayed on top of them'.format(want))
     fn = ci.methods.get('__init__')
     ok = 'self.initial = dict(self)' in unparse(fn)
     ctx.ob(R, 'EnvVarDict.__init__|initial-is-a-copy', ok, fn,
@@ -412,6 +423,11 @@ def ambient(ctx):
                 continue
             n += 1
             key = '{}|{}'.format(where(node, m), what)
+            if what == 'os.getcwd' and where(node, m).startswith(
+                    'bfg9000.platforms.basepath:BasePath.'):
+                # any helper of BasePath may ask for the cwd: used only to
+                # absolutise command-line paths
+                key = 'bfg9000.platforms.basepath:BasePath.abspath|os.getcwd'
             if key in AMBIENT_ALLOW:
                 ctx.ob(R, key, True, node, 'allow-listed: ' +
                        AMBIENT_ALLOW[key])
@@ -476,6 +492,28 @@ def ambient(ctx):
                        '{}(...) is called without an environment: it '
                        'searches the ambient PATH instead of the saved one'
                        .format(name))
+    # the *target* platform defaults to the host: detecting it again later
+    # (instead of restoring the saved one) ties a regeneration to the machine
+    # it runs on
+    TP = 'bfg9000.platforms.target:platform_info'
+    tp_allow = {
+        'bfg9000.environment:Environment.__init__':
+            'the configure-time capture',
+        'bfg9000.builtins.toolchain:target_platform':
+            'explicit platform/arch given by the toolchain file',
+        'bfg9000.driver:add_configure_args':
+            'default install directories shown in --help (configure time)',
+        'bfg9000.driver:main': 'e1m1 playback tempo',
+    }
+    if repo.has_func(TP):
+        tf = repo.func(TP)
+        for m_, c_, exact in Q.find_callers(repo, tf, by_name_ok=False):
+            w = where(c_, m_)
+            n += 1
+            ctx.ob(R, w + '|target.platform_info', w in tp_allow, c_,
+                   'the target platform is detected from the running machine '
+                   'in {} instead of being restored from the saved '
+                   'configuration'.format(w))
     ctx.require_min(R, n, 25, 'ambient-state sites')
 
 
